@@ -221,6 +221,10 @@ pub fn corpus() -> Vec<(bool, String)> {
     for s in ["halt", ".fill x5", "ret\nhalt", "lbl br lbl.fill x3", "br lbl\"a\"", "rets", ".stringz \"ab\""] {
         add(s);
     }
+    // C01-1: a comment between a data directive and its operand
+    for s in [".fill ; the answer\n x2A\nhalt", "msg .stringz ; greeting\n \"hi\"", ".blkw ;c\n#2", ".fill ;a\n;b\n\n ; c\n x1", ".fill ;c", ".stringz ;c\n", ".orig ;c\n x3000", "add r0 r0 ;c\n #1"] {
+        add(s);
+    }
     // D13-like: stack mnemonics with the feature off, any case, label position
     for s in ["push r0", "PUSH r0", "rets", "call x\nx rets", "pop: halt", "br push"] {
         v.push((false, s.to_string()));
